@@ -149,6 +149,89 @@ Section Tie.
   Qed.
 End Tie.
 
+(* ---- discretize_rhs_f (src/GMGPolar/build_rhs_f.cpp): the four loop nests as T3 regenerates them ---- *)
+Section RhsTie.
+  Variable nr nth : Z.
+  Variable h k rad thetaf : Z -> R.
+  Variable det : Z -> Z -> R.
+  Variable dirbc : bool.
+  Hypothesis Hnr : (4 <= nr)%Z.
+  Hypothesis Hnth : (2 <= nth)%Z.
+
+  (* cached geometry: each loop body multiplies rhs_f at its own node by the model's rhs_weight (the mass weight of row (i,j),
+     StencilProofs2.rhs_weight_is_mass_weight), and by 1 on Dirichlet rows *)
+  Ltac rhs_body j Hj :=
+    cbv zeta; rewrite ?(wrapT_small nth j Hj); rewrite ?(wrapT_wrap1 nth (j - 1)) by lia;
+    unfold rhs_weight, kk, wt; rewrite ?(wrap1_small nth j Hj).
+
+  Lemma gen_rhs_body_cached (gen : (Z -> Z -> R) -> Z -> Z -> list (@gwrite Rsc)) :
+    (gen = @gen_rhs_cached_circle Rsc nr nth h k rad thetaf det dirbc \/
+     gen = @gen_rhs_cached_radial Rsc nr nth h k rad thetaf det dirbc) ->
+    forall rhs_f i j, (0 <= i < nr)%Z -> (0 <= j < nth)%Z ->
+    gen rhs_f i j = [ (((i, j), W_rhs_f_WMul), @rhs_weight Rsc nr nth h k (rad 0%Z) det dirbc i j) ].
+  Proof.
+    intros Hg rhs_f i j Hi Hj.
+    destruct Hg as [-> | ->]; unfold gen_rhs_cached_circle, gen_rhs_cached_radial; rhs_body j Hj;
+      (destruct (Z.ltb_spec 0 i); destruct (Z.ltb_spec i (nr - 1)); destruct (Z.eqb_spec i 0); destruct (Z.eqb_spec i (nr - 1));
+       try lia; destruct dirbc; cbn [andb orb negb app]; try reflexivity; f_equal; f_equal; rsc; ring).
+  Qed.
+
+End RhsTie.
+
+Section RhsTieUncached.
+  Variable nr nth : Z.
+  Variable h k rad thetaf sin_cache cos_cache : Z -> R.
+  Variable dFx_dr dFy_dr dFx_dt dFy_dt : Z -> Z -> R.
+  Variable dirbc : bool.
+  Hypothesis Hnr : (4 <= nr)%Z.
+  Hypothesis Hnth : (2 <= nth)%Z.
+
+  Ltac rhs_body j Hj :=
+    cbv zeta; rewrite ?(wrapT_small nth j Hj); rewrite ?(wrapT_wrap1 nth (j - 1)) by lia;
+    unfold rhs_weight, kk, wt; rewrite ?(wrap1_small nth j Hj).
+
+  (* uncached geometry: the same with det = Jrr Jtt - Jrt Jtr evaluated at the node itself *)
+  Let detJ (i j : Z) : R := (dFx_dr i j * dFy_dt i j - dFx_dt i j * dFy_dr i j)%R.
+
+  Lemma gen_rhs_body_uncached (gen : (Z -> Z -> R) -> Z -> Z -> list (@gwrite Rsc)) :
+    (gen = @gen_rhs_uncached_circle Rsc nr nth h k rad thetaf sin_cache cos_cache dFx_dr dFy_dr dFx_dt dFy_dt dirbc \/
+     gen = @gen_rhs_uncached_radial Rsc nr nth h k rad thetaf sin_cache cos_cache dFx_dr dFy_dr dFx_dt dFy_dt dirbc) ->
+    forall rhs_f i j, (0 <= i < nr)%Z -> (0 <= j < nth)%Z ->
+    gen rhs_f i j = [ (((i, j), W_rhs_f_WMul), @rhs_weight Rsc nr nth h k (rad 0%Z) detJ dirbc i j) ].
+  Proof.
+    intros Hg rhs_f i j Hi Hj.
+    destruct Hg as [-> | ->]; unfold gen_rhs_uncached_circle, gen_rhs_uncached_radial, detJ; rhs_body j Hj;
+      (destruct (Z.ltb_spec 0 i); destruct (Z.ltb_spec i (nr - 1)); destruct (Z.eqb_spec i 0); destruct (Z.eqb_spec i (nr - 1));
+       try lia; destruct dirbc; cbn [andb orb negb app]; try reflexivity; f_equal; f_equal; rsc; ring).
+  Qed.
+
+End RhsTieUncached.
+
+Section RhsLoops.
+  Variable nr nth nsc : Z.
+
+  (* the two loop nests of each variant visit every node of the grid exactly once *)
+  Theorem gen_rhs_loops_partition : forall i j, (0 <= i < nr)%Z -> (0 <= j < nth)%Z ->
+    xorb (gen_rhs_cached_circle_visits nth nsc i j) (gen_rhs_cached_radial_visits nr nth nsc i j) = true /\
+    xorb (gen_rhs_uncached_circle_visits nth nsc i j) (gen_rhs_uncached_radial_visits nr nth nsc i j) = true.
+  Proof.
+    intros i j Hi Hj.
+    unfold gen_rhs_cached_circle_visits, gen_rhs_cached_radial_visits, gen_rhs_uncached_circle_visits, gen_rhs_uncached_radial_visits.
+    destruct (Z.leb_spec 0 i); destruct (Z.ltb_spec i nsc); destruct (Z.leb_spec 0 j); destruct (Z.ltb_spec j nth);
+      destruct (Z.leb_spec nsc i); destruct (Z.ltb_spec i nr); cbn; try lia; auto.
+  Qed.
+  Hypothesis Hnsc : (0 <= nsc <= nr)%Z.
+  Theorem gen_rhs_loops_in_grid : forall i j,
+    (gen_rhs_cached_circle_visits nth nsc i j = true \/ gen_rhs_cached_radial_visits nr nth nsc i j = true \/
+     gen_rhs_uncached_circle_visits nth nsc i j = true \/ gen_rhs_uncached_radial_visits nr nth nsc i j = true) ->
+    (0 <= i < nr)%Z /\ (0 <= j < nth)%Z.
+  Proof.
+    intros i j.
+    unfold gen_rhs_cached_circle_visits, gen_rhs_cached_radial_visits, gen_rhs_uncached_circle_visits, gen_rhs_uncached_radial_visits.
+    rewrite !andb_true_iff, !Z.leb_le, !Z.ltb_lt. lia.
+  Qed.
+End RhsLoops.
+
 (* the symmetry and semidefiniteness theorems of StencilProofs, restated for the generated give kernel *)
 Theorem gen_form_symmetric :
   forall (nr nth : Z) (h k rad : Z -> R) (arr att art det : Z -> Z -> R) (beta : Z -> R) (dirbc : bool),
